@@ -113,6 +113,14 @@ class RuneStr:
         self.bits = bits
 
 
+class BytesStr:
+    """string(b) for a byte slice b of concrete length: the bytes, kept symbolic (compared element-wise)"""
+    __slots__ = ('vals',)
+
+    def __init__(self, vals):
+        self.vals = tuple(vals)
+
+
 class Union:
     __slots__ = ('alts',)
 
@@ -1246,6 +1254,10 @@ class Executor:
         x = self.operand(ins['x'], env)
         ft = self.p.T(ins['xt'])
         tt = self.p.T(ins['type'])
+        if ft['k'] == 'slice' and tt['k'] == 'string' and isinstance(x, SliceV) and isinstance(x.len, int) and isinstance(x.off, int) and x.len <= 256:
+            arr = self.slice_array(st, x)
+            env[ins['name']] = BytesStr([self.index_value(arr, x.off + i) for i in range(x.len)])
+            return st
         env[ins['name']] = self.convert(x, ft, tt)
         return st
 
@@ -1649,12 +1661,17 @@ class Executor:
                 if name == 'cap':
                     raise Unsupported('cap of channel')
                 return simp(z3.ZeroExt(56, st.heap[x.obj][1])), st
+            if isinstance(x, Ptr) and isinstance(st.heap.get(x.obj), tuple) and len(st.heap[x.obj]) == 2 and st.heap[x.obj][0] == 'map':
+                return self.map_len(st, x), st
             return self.len_of(x, name), st
         if name == 'copy':
             return self.do_copy(st, args[0], args[1], ins.get('pos')), st
         if name == 'append':
             return self.do_append(st, args[0], args[1], ins), st
         if name in ('print', 'println'):
+            return None, st
+        if name == 'delete':
+            self.map_delete(st, args[0], args[1])
             return None, st
         if name == 'close':
             ch = args[0]
@@ -1797,17 +1814,95 @@ class Executor:
         env[ins['name']] = tuple(out)
         return st
 
+    # ---- maps: an insertion-ordered list of (key, value, present); keys are compared symbolically (integers, booleans,
+    # concrete strings, arrays/structs of those). Iteration (Range/Next) is not modelled: Go leaves the order unspecified.
+    MAP_CAP = 64
+
+    def map_entries(self, st, m):
+        if m is None:
+            return None
+        if isinstance(m, Union):
+            raise Unsupported('guarded union of maps')
+        c = st.heap[m.obj]
+        if not (isinstance(c, tuple) and len(c) == 2 and c[0] == 'map'):
+            raise Unsupported('not a map object')
+        return c[1]
+
     def op_Lookup(self, fn, ins, env, st):
-        raise Unsupported('map/string lookup')
+        xt = self.p.T(ins['xt'])
+        if xt['k'] != 'map':
+            raise Unsupported('string lookup')
+        m = self.operand(ins['x'], env)
+        k = self.operand(ins['index'], env)
+        t = self.p.T(ins['type'])
+        vt = t['elems'][0] if ins.get('commaok') else ins['type']
+        val = self.zero(vt)
+        ok = False
+        ents = self.map_entries(st, m)
+        for (ek, ev, ep) in (ents or ()):
+            g = band(ep, deep_equal(ek, k))
+            if g is False:
+                continue
+            val = merge_val(g, ev, val, self.p, vt)
+            ok = bor(ok, g)
+        env[ins['name']] = (val, ok) if ins.get('commaok') else val
+        return st
+
+    def op_MapUpdate(self, fn, ins, env, st):
+        m = self.operand(ins['map'], env)
+        k = self.operand(ins['key'], env)
+        v = self.operand(ins['value'], env)
+        if m is None:
+            self.oblige(st, 'panic', 'assignment to entry in nil map', ins.get('pos'), False)
+            return st
+        ents = self.map_entries(st, m)
+        out = []
+        hit = False
+        for (ek, ev, ep) in ents:
+            e = deep_equal(ek, k)
+            if e is True:
+                out.append((ek, v, True))
+                hit = True
+            elif e is False:
+                out.append((ek, ev, ep))
+            else:
+                g = band(ep, e)
+                out.append((ek, merge_val(g, v, ev), ep))
+                hit = bor(hit, g)
+        if hit is not True:
+            if len(out) >= self.MAP_CAP:
+                raise Inconclusive('map model capacity exceeded')
+            out.append((k, v, bnot(hit)))
+        st.heap[m.obj] = ('map', tuple(out))
+        return st
+
+    def map_delete(self, st, m, k):
+        ents = self.map_entries(st, m)
+        if ents is None:
+            return
+        out = []
+        for (ek, ev, ep) in ents:
+            e = deep_equal(ek, k)
+            if e is True:
+                continue
+            out.append((ek, ev, ep if e is False else band(ep, bnot(e))))
+        st.heap[m.obj] = ('map', tuple(out))
+
+    def map_len(self, st, m):
+        ents = self.map_entries(st, m) or ()
+        n = 0
+        for (_, _, ep) in ents:
+            if ep is True:
+                n = n + 1 if isinstance(n, int) else n + z3.BitVecVal(1, 64)
+            elif ep is not False:
+                n = bv(n, 64) + z3.If(ep, z3.BitVecVal(1, 64), z3.BitVecVal(0, 64))
+        return simp(n) if not isinstance(n, int) else n
 
     def op_Range(self, fn, ins, env, st):
-        raise Unsupported('range over map/string')
+        raise Unsupported('range over map/string (iteration order is unspecified in Go; not modelled)')
 
     def op_Next(self, fn, ins, env, st):
         raise Unsupported('next')
-
-    def op_MapUpdate(self, fn, ins, env, st):
-        raise Unsupported('map update')
 
     def op_SliceToArrayPointer(self, fn, ins, env, st):
         raise Unsupported('slice to array pointer')
@@ -1941,6 +2036,16 @@ def deep_equal(a, b):
     """structural equality of two heap contents; bool or BoolRef (reference values: same target)"""
     if a is b:
         return True
+    if isinstance(a, BytesStr) or isinstance(b, BytesStr):
+        va = a.vals if isinstance(a, BytesStr) else (tuple(a.encode('utf-8')) if isinstance(a, str) else None)
+        vb = b.vals if isinstance(b, BytesStr) else (tuple(b.encode('utf-8')) if isinstance(b, str) else None)
+        if va is None or vb is None:
+            raise Unsupported('comparison of an unmodelled string')
+        if len(va) != len(vb):
+            return False
+        return deep_equal(tuple(va), tuple(vb))
+    if isinstance(a, Opaque) or isinstance(b, Opaque):
+        raise Unsupported('comparison of an unmodelled value (%s)' % (a.what if isinstance(a, Opaque) else b.what))
     if isinstance(a, tuple) and isinstance(b, tuple):
         if len(a) != len(b):
             return False
@@ -2016,6 +2121,22 @@ def merge_val(g, a, b, P=None, tid=None):
         if a.eq(b):
             return a
         return z3.If(g, a, b)
+    if ta is tuple and tb is tuple and len(a) == 2 and len(b) == 2 and a[0] == 'map' and b[0] == 'map':
+        ea, eb = list(a[1]), list(b[1])
+        # common prefix of keys is kept aligned; entries only one side has are absent on the other
+        out = []
+        n = min(len(ea), len(eb))
+        for i in range(n):
+            (ka, va, pa), (kb, vb, pb) = ea[i], eb[i]
+            if deep_equal(ka, kb) is not True:
+                n = i
+                break
+            out.append((ka, merge_val(g, va, vb), merge_val(g, pa, pb)))
+        for (k_, v_, p_) in ea[n:]:
+            out.append((k_, v_, band(g, p_)))
+        for (k_, v_, p_) in eb[n:]:
+            out.append((k_, v_, band(bnot(g), p_)))
+        return ('map', tuple(out))
     if ta is tuple and tb is tuple and len(a) == len(b):
         if tid is not None:
             t = P.T(tid)
